@@ -9,22 +9,26 @@ From CBI Require Import Lib.Data Model.C05 Model.C05a Spec.C05.
 Import ListNotations.
 
 (* ---------- the per-line view of the reference scanner ---------- *)
-Record ast := { a_q : sm; a_m : bool; a_d : dstate; a_lw : lws; a_ok : bool }.
+(* a_sc: the pending slash (if any) lies on the current physical line *)
+Record ast := { a_q : sm; a_m : bool; a_d : dstate; a_lw : lws; a_sc : bool; a_ok : bool }.
 
 Definition a_setq (q : sm) (a : ast) : ast :=
-  {| a_q := q; a_m := a_m a; a_d := a_d a; a_lw := a_lw a; a_ok := a_ok a |}.
+  {| a_q := q; a_m := a_m a; a_d := a_d a; a_lw := a_lw a; a_sc := a_sc a; a_ok := a_ok a |}.
 Definition a_survive (is_hash : bool) (a : ast) : ast :=
   {| a_q := a_q a; a_m := true;
      a_d := match a_d a with dNone => if is_hash then dDir else dSrc | d => d end;
-     a_lw := a_lw a; a_ok := a_ok a |}.
+     a_lw := a_lw a; a_sc := a_sc a; a_ok := a_ok a |}.
 Definition a_bad (a : ast) : ast :=
-  {| a_q := a_q a; a_m := a_m a; a_d := a_d a; a_lw := a_lw a; a_ok := false |}.
+  {| a_q := a_q a; a_m := a_m a; a_d := a_d a; a_lw := a_lw a; a_sc := a_sc a; a_ok := false |}.
 Definition a_setlw (w : lws) (a : ast) : ast :=
-  {| a_q := a_q a; a_m := a_m a; a_d := a_d a; a_lw := w; a_ok := a_ok a |}.
+  {| a_q := a_q a; a_m := a_m a; a_d := a_d a; a_lw := w; a_sc := a_sc a; a_ok := a_ok a |}.
+Definition a_far (a : ast) : ast := if a_sc a then a else a_bad a.
+Definition a_here (a : ast) : ast :=
+  {| a_q := a_q a; a_m := a_m a; a_d := a_d a; a_lw := a_lw a; a_sc := true; a_ok := a_ok a |}.
 
 Definition c_top (a : ast) (c : cls) : ast :=
   match c with
-  | cSl => a_setq sSlash a
+  | cSl => a_setq sSlash (a_here a)
   | cDq => a_setq sDQ (a_survive false a)
   | cSq => a_setq sSQ (a_survive false a)
   | cSp | cWs => a_setq sTop a
@@ -56,7 +60,7 @@ Definition cstep (a : ast) (c : cls) : ast :=
       match c with
       | cSl => a_setq sLC a
       | cSt => a_setq sBlk a
-      | _ => c_top (a_survive false a) c
+      | _ => c_top (a_survive false (a_far a)) c
       end
   | sLC => a
   | sBlk => match c with cSt => a_setq sBlkStar a | _ => a end
@@ -74,19 +78,18 @@ Record eol := { e_next : ast; e_counted : bool; e_ended : bool; e_d : dstate }.
 Definition c_eol (continued : bool) (a : ast) : eol :=
   let ok1 := a_ok a && negb (negb (a_m a) && match a_lw a with lwM => true | _ => false end) in
   if continued then
-    {| e_next := {| a_q := a_q a; a_m := false; a_d := a_d a; a_lw := lw0;
-                    a_ok := ok1 && negb (sm_eqb (a_q a) sSlash) |};
+    {| e_next := {| a_q := a_q a; a_m := false; a_d := a_d a; a_lw := lw0; a_sc := false; a_ok := ok1 |};
        e_counted := a_m a; e_ended := false; e_d := a_d a |}
   else
     let fin (a : ast) (ok : bool) :=
-      {| e_next := {| a_q := sTop; a_m := false; a_d := dNone; a_lw := lw0; a_ok := ok |};
+      {| e_next := {| a_q := sTop; a_m := false; a_d := dNone; a_lw := lw0; a_sc := false; a_ok := ok |};
          e_counted := a_m a; e_ended := true; e_d := a_d a |} in
     let cont (q : sm) :=
-      {| e_next := {| a_q := q; a_m := false; a_d := a_d a; a_lw := lw0; a_ok := ok1 |};
+      {| e_next := {| a_q := q; a_m := false; a_d := a_d a; a_lw := lw0; a_sc := false; a_ok := ok1 |};
          e_counted := a_m a; e_ended := false; e_d := a_d a |} in
     match a_q a with
     | sTop | sLC => fin a ok1
-    | sSlash => fin (a_survive false a) ok1
+    | sSlash => fin (a_survive false a) (ok1 && a_sc a)
     | sBlk => cont sBlk
     | sBlkStar => cont sBlk
     | sDQ | sDQe | sSQ | sSQe => fin a false
@@ -128,7 +131,7 @@ Definition stacks : list (list mode) := map fst stack_table.
 Definition bclss : list bcls :=
   [bE; bSp false; bSp true; bWn false; bWn true; bD0 false; bD0 true; bD1 false; bD1 true; bN false; bN true].
 Definition clss : list cls := [cL; cSp; cWs; cSl; cSt; cDq; cSq; cBs; cHash].
-Definition lwss : list lws := [lw0; lw1; lwM].
+Definition lwss : list (lws * bool) := [(lw0, true); (lw1, true); (lwM, true); (lw0, false); (lw1, false); (lwM, false)].
 
 Definition bmarked (b : bcls) : bool :=
   match b with bD0 _ | bD1 _ | bN _ => true | _ => false end.
@@ -162,10 +165,10 @@ Definition relb (st : list mode) (b L : bcls) (a : ast) : bool :=
   osm_eqb (alpha st) (a_q a) && Bool.eqb (bmarked b) (a_m a) &&
   d_eqb (dof (ab_cat (ab_join L b))) (a_d a) && okbuf (a_q a) b L (a_lw a) && okL (a_q a) b L.
 
-Definition mk_ast (q : sm) (b L : bcls) (w : lws) : ast :=
-  {| a_q := q; a_m := bmarked b; a_d := dof (ab_cat (ab_join L b)); a_lw := w; a_ok := true |}.
+Definition mk_ast (q : sm) (b L : bcls) (w : lws * bool) : ast :=
+  {| a_q := q; a_m := bmarked b; a_d := dof (ab_cat (ab_join L b)); a_lw := fst w; a_sc := snd w; a_ok := true |}.
 
-Definition step_ok (st : list mode) (b L : bcls) (w : lws) (c : cls) : bool :=
+Definition step_ok (st : list mode) (b L : bcls) (w : lws * bool) (c : cls) : bool :=
   match alpha st with
   | None => true
   | Some q =>
@@ -189,7 +192,7 @@ Definition fails5 {A B C D E} (la : list A) (lb : list B) (lc : list C) (ld : li
 Definition m_eol (st : list mode) (b : bcls) (continued : bool) : list mode * bcls :=
   if negb continued && negb (top_is_block st) then logical_newline absalg st b else (st, b).
 
-Definition eol_ok (st : list mode) (b L : bcls) (w : lws) (continued : bool) : bool :=
+Definition eol_ok (st : list mode) (b L : bcls) (w : lws * bool) (continued : bool) : bool :=
   match alpha st with
   | None => true
   | Some q =>
@@ -240,7 +243,7 @@ Proof. destruct b as [|[]|[]|[]|[]|[]]; simpl; tauto. Qed.
 Lemma in_clss c : In c clss.
 Proof. destruct c; simpl; tauto. Qed.
 Lemma in_lwss w : In w lwss.
-Proof. destruct w; simpl; tauto. Qed.
+Proof. destruct w as [[] []]; simpl; tauto. Qed.
 Lemma in_bools (x : bool) : In x [true; false].
 Proof. destruct x; simpl; tauto. Qed.
 
@@ -258,13 +261,13 @@ Qed.
 
 Lemma rel_ast st b L a :
   relb st b L a = true -> a_ok a = true ->
-  alpha st = Some (a_q a) /\ a = mk_ast (a_q a) b L (a_lw a).
+  alpha st = Some (a_q a) /\ a = mk_ast (a_q a) b L (a_lw a, a_sc a).
 Proof.
   unfold relb. intros H Hok.
   repeat (apply andb_true_iff in H; destruct H as [H ?]).
   unfold osm_eqb in H. destruct (alpha st) as [q|] eqn:Ea; [|discriminate].
   apply sm_eqb_eq in H. subst q. split; [reflexivity|].
-  destruct a as [q m d w ok]. simpl in *. unfold mk_ast. subst ok.
+  destruct a as [q m d w sc ok]. simpl in *. unfold mk_ast. subst ok.
   match goal with H : Bool.eqb _ _ = true |- _ => apply Bool.eqb_prop in H; rewrite H end.
   match goal with H : d_eqb _ _ = true |- _ => apply d_eqb_eq in H; rewrite H end.
   reflexivity.
@@ -275,7 +278,7 @@ Lemma step_sim st b L a c :
   relb (fst (mstep absalg st b c)) (snd (mstep absalg st b c)) L (cstep a c) = true.
 Proof.
   intros HR Hok Hok'. destruct (rel_ast _ _ _ _ HR Hok) as [Ha Ea].
-  pose proof (all5_spec _ _ _ _ _ _ step_table st b L (a_lw a) c
+  pose proof (all5_spec _ _ _ _ _ _ step_table st b L (a_lw a, a_sc a) c
                 (alpha_in _ _ Ha) (in_bclss b) (in_bclss L) (in_lwss _) (in_clss c)) as T.
   unfold step_ok in T. rewrite Ha, <- Ea, HR in T. cbn [implb] in T.
   rewrite Hok' in T. exact T.
@@ -283,7 +286,7 @@ Qed.
 
 Lemma ok_mono_step a c : a_ok (cstep a c) = true -> a_ok a = true.
 Proof.
-  destruct a as [q m d w ok]. destruct q, c, m; simpl; intros H; try exact H; try discriminate H.
+  destruct a as [q m d w sc ok]. destruct q, c, m, sc; simpl; intros H; try exact H; try discriminate H.
 Qed.
 Lemma ok_mono_fold cs : forall a, a_ok (fold_left cstep cs a) = true -> a_ok a = true.
 Proof.
@@ -307,7 +310,7 @@ Qed.
 
 Lemma ok_mono_eol continued a : a_ok (e_next (c_eol continued a)) = true -> a_ok a = true.
 Proof.
-  destruct a as [q m d w ok]. unfold c_eol. destruct continued, q; simpl;
+  destruct a as [q m d w sc ok]. unfold c_eol. destruct continued, q; simpl;
     intros H; try discriminate H; repeat (apply andb_true_iff in H; destruct H as [H ?]); exact H.
 Qed.
 
@@ -323,7 +326,7 @@ Lemma eol_sim st b L a continued :
 Proof.
   intros HR Hok'. pose proof (ok_mono_eol _ _ Hok') as Hok.
   destruct (rel_ast _ _ _ _ HR Hok) as [Ha Ea].
-  pose proof (all5_spec _ _ _ _ _ _ eol_table st b L (a_lw a) continued
+  pose proof (all5_spec _ _ _ _ _ _ eol_table st b L (a_lw a, a_sc a) continued
                 (alpha_in _ _ Ha) (in_bclss b) (in_bclss L) (in_lwss _) (in_bools _)) as T.
   unfold eol_ok in T. rewrite Ha, <- Ea, HR in T. cbn [implb] in T.
   rewrite Hok' in T. cbn [implb] in T.
@@ -337,5 +340,5 @@ Proof.
   - assumption.
 Qed.
 
-Lemma rel_init : relb [TOP] bE bE {| a_q := sTop; a_m := false; a_d := dNone; a_lw := lw0; a_ok := true |} = true.
+Lemma rel_init sc : relb [TOP] bE bE {| a_q := sTop; a_m := false; a_d := dNone; a_lw := lw0; a_sc := sc; a_ok := true |} = true.
 Proof. vm_compute. reflexivity. Qed.
